@@ -30,7 +30,8 @@ CONSTANTS P,        \* field prime (small)
           MaxW,     \* bound on the number of private wires
           MaxLen,   \* bound on the number of public calls
           Vals,     \* input values for PrivVal
-          Wide      \* TRUE: the full operator set; FALSE: the core gadgets only (smaller state graph)
+          Wide,     \* TRUE: the full operator set; FALSE: the core gadgets only (smaller state graph)
+          RES       \* fixedpoint.resolution (objects of kind "fxp" carry the scaled integer x * 2^RES)
 
 VARIABLES wit, cons, objs, gstack, uign, raised, hist
 vars == <<wit, cons, objs, gstack, uign, raised, hist>>
@@ -333,6 +334,37 @@ AAssert(op, i, j) ==
          ELSE IF Ign THEN LET n == New(St0, 0) IN Commit(AddCon(n.st, dv, d, 0, Var(n.w), OneObj.v, OneObj.lc, FALSE), <<>>, h)
          ELSE Commit(Fail(St0), <<>>, h)
 
+\* ---- fixed point (pysnark.fixedpoint.LinCombFxp): the object is its scaled integer; + - compare on the representations,
+\* multiplication and division rescale through the integer floor-division gadget with the divisor 2^RES as a CONSTANT
+\* linear combination (ConstVal) or the other operand
+Scale == 2 ^ RES
+AFxpNew(v) == Room(1) /\ LET n == New(St0, v) IN Commit(n.st, <<Obj(v, Var(n.w), "fxp")>>, [a |-> "privfxp", i |-> 0, j |-> 0, v |-> v])
+AFxpAdd(i, j) == Commit(St0, <<Obj(objs[i].v + objs[j].v, LAdd(objs[i].lc, objs[j].lc), "fxp")>>, [a |-> "fadd", i |-> i, j |-> j, v |-> 0])
+AFxpSub(i, j) == Commit(St0, <<Obj(objs[i].v - objs[j].v, LSub(objs[i].lc, objs[j].lc), "fxp")>>, [a |-> "fsub", i |-> i, j |-> j, v |-> 0])
+\* x + c with a plain integer c: c is scaled, the constant one carries it
+AFxpAddC(i, c) == Commit(St0, <<Obj(objs[i].v + c * Scale, LAdd(objs[i].lc, LScale(One, c * Scale)), "fxp")>>, [a |-> "faddc", i |-> i, j |-> 0, v |-> c])
+AFxpMulC(i, c) == Commit(St0, <<Obj(objs[i].v * c, LScale(objs[i].lc, c), "fxp")>>, [a |-> "fmulc", i |-> i, j |-> 0, v |-> c])
+\* x * y: the product of the representations (one multiplication), floor-divided by the constant 2^RES
+AFxpMul(i, j) ==
+    Room(4 * BL + 12) /\
+    LET pv == objs[i].v * objs[j].v
+        n  == New(St0, pv)
+        s1 == Emit(n.st, objs[i].lc, objs[j].lc, Var(n.w))
+        r  == DivMod(s1, pv, Var(n.w), Scale, LScale(One, Scale)) IN
+    Commit(r.st, <<Obj(r.qv, Var(r.q), "fxp")>>, [a |-> "fmul", i |-> i, j |-> j, v |-> 0])
+\* x / y: (x * 2^RES) // y on the representations
+AFxpTrueDiv(i, j) ==
+    Room(4 * BL + 12) /\
+    LET r == DivMod(St0, objs[i].v * Scale, LScale(objs[i].lc, Scale), objs[j].v, objs[j].lc) IN
+    Commit(r.st, <<Obj(r.qv, Var(r.q), "fxp")>>, [a |-> "ftruediv", i |-> i, j |-> j, v |-> 0])
+\* x // y: the integer quotient of the representations, scaled back up
+AFxpFloorDiv(i, j) ==
+    Room(4 * BL + 12) /\
+    LET r == DivMod(St0, objs[i].v, objs[i].lc, objs[j].v, objs[j].lc) IN
+    Commit(r.st, <<Obj(r.qv * Scale, LScale(Var(r.q), Scale), "fxp")>>, [a |-> "ffloordiv", i |-> i, j |-> j, v |-> 0])
+AFxpLt(i, j) == Room(2 * BL + 4) /\ LET xv == objs[j].v - objs[i].v - 1 x == LAdd(LSub(objs[j].lc, objs[i].lc), LScale(One, -1)) r == CheckPos(St0, xv, x) IN
+                Commit(r.st, <<Obj(r.v, Var(r.w), "bool")>>, [a |-> "flt", i |-> i, j |-> j, v |-> 0])
+
 \* guarded regions: add_guard with a boolean-typed (or 0/1 integer) secret condition; nested: guard & cond on the 0/1 LinCombs
 \* (LinComb.__and__ of two secrets decomposes both: not modelled -- regions are entered only from the top level here)
 AEnter(i) == /\ gstack = <<>> /\ objs[i].v \in {0, 1} /\ ~raised
@@ -350,10 +382,15 @@ Consts == {-1, 2}
 \* which object kinds an operation is modelled for: boolean-typed objects forward +, -, *, zero tests and sign tests to the
 \* same gadgets, but have no to_bits and compare through a conversion of the OTHER operand (not modelled: int-typed only)
 Ints == {i \in DOMAIN objs : objs[i].k = "int"}
+Fxps == {i \in DOMAIN objs : objs[i].k = "fxp"}
+Plain == {i \in DOMAIN objs : objs[i].k # "fxp"}      \* integer- and boolean-typed objects
 Next == /\ Len(hist) < MaxLen /\ ~raised
         /\ \/ \E v \in Vals : APriv(v)
            \/ \E b \in {0, 1} : ABool(b)
-           \/ \E i, j \in DOMAIN objs : AAdd(i, j) \/ ASub(i, j) \/ AMul(i, j)
+           \/ \E i, j \in Plain : AAdd(i, j) \/ ASub(i, j) \/ AMul(i, j)
+           \/ (Wide /\ \E v \in Vals : AFxpNew(v))
+           \/ (Wide /\ \E i, j \in Fxps : (AFxpAdd(i, j) \/ AFxpSub(i, j) \/ AFxpMul(i, j) \/ AFxpTrueDiv(i, j) \/ AFxpFloorDiv(i, j) \/ AFxpLt(i, j)))
+           \/ (Wide /\ \E i \in Fxps, c \in Consts : (AFxpAddC(i, c) \/ AFxpMulC(i, c)))
            \/ \E i, j \in Ints : ALt(i, j) \/ ATrueDiv(i, j) \/ ADivMod(i, j)
            \/ (Wide /\ \E i, j \in Ints : (\E o1 \in {"le", "gt", "ge"} : ACmp(o1, i, j)))
            \/ (Wide /\ \E i, j \in Ints : (AEq(i, j) \/ ANe(i, j) \/ AFloorDiv(i, j) \/ AMod(i, j)))
@@ -363,10 +400,10 @@ Next == /\ Len(hist) < MaxLen /\ ~raised
            \/ (Wide /\ \E i \in Ints : (\E c \in {1, 2} : (ALShiftC(i, c) \/ ARShiftC(i, c))))
            \/ (Wide /\ \E i \in Ints : (\E c \in {2, 3} : APowC(i, c)))
            \/ \E i \in Ints, c \in {2, 3} : ATrueDivC(i, c)
-           \/ \E c \in DOMAIN objs, i, j \in Ints : AIte(c, i, j)
+           \/ \E c \in Plain, i, j \in Ints : AIte(c, i, j)
            \/ \E i \in Ints : AAssertNonzero(i)
-           \/ \E i \in DOMAIN objs, c \in Consts : AAddC(i, c) \/ AMulC(i, c)
-           \/ \E i \in DOMAIN objs : AAssertZero(i) \/ ACheckZero(i) \/ ACheckPos(i) \/ AEnter(i)
+           \/ \E i \in Plain, c \in Consts : AAddC(i, c) \/ AMulC(i, c)
+           \/ \E i \in Plain : AAssertZero(i) \/ ACheckZero(i) \/ ACheckPos(i) \/ AEnter(i)
            \/ \E i \in Ints : AToBits(i)
            \/ ALeave \/ ASetIgn
 Spec == Init /\ [][Next]_vars
